@@ -16,9 +16,9 @@ THEOREMS = ["running_has_live_pid", "refresh_syncs", "stop_leaves_nothing", "rem
             "names_and_dirs_unique", "save_load_identity", "lifecycle_invariants", "lifecycle_constants", "ok_clears_record",
             "add_saves_every_recorded_service", "save_load_all_values", "connected_peers_encoding_injective",
             "registry_serde_as_in_source"]
-RULE = ("histories = lists of add / start / stop / remove / upgrade / refresh / kill over the services added so "
+RULE = ("histories = lists of add / start / stop / remove / upgrade / refresh / kill / out-of-band restart over the services added so "
         "far, each with a fault plan (set of call indices that fail); quick: every history of <= 3 operations "
-        "over the 13-operation alphabet (2 services) with every 0- and 1-fault placement, a seeded sample of "
+        "over the 15-operation alphabet (2 services) with every 0- and 1-fault placement, a seeded sample of "
         "2-fault placements, 201 directed port-boundary histories, plus seeded long histories (to 12 ops, option variants: port ranges, metrics "
         "server, genesis, keep-directories, forced / not-started / missing-binary upgrades, dynamic start-up "
         "delay); thorough: every history of <= 4 operations with every 0/1-fault placement, every 2-fault placement of "
@@ -76,6 +76,8 @@ def c_op(o):
         return "ORefresh"
     if k == "kill":
         return "(OKill %s)" % i
+    if k == "restart":
+        return "(ORestart %s)" % i
     raise ValueError(k)
 
 
@@ -285,7 +287,7 @@ def alphabet():
     ops = [{"op": "add"}, {"op": "add", "count": 2}]
     for i in (0, 1):
         ops += [{"op": "start", "i": i}, {"op": "stop", "i": i}, {"op": "remove", "i": i},
-                {"op": "upgrade", "i": i, "tv": 2}, {"op": "kill", "i": i}]
+                {"op": "upgrade", "i": i, "tv": 2}, {"op": "kill", "i": i}, {"op": "restart", "i": i}]
     ops.append({"op": "refresh"})
     return ops
 
@@ -326,6 +328,8 @@ def rand_op(rng, nsvc):
             o["metrics_port"] = rand_prange(rng, count)
         if rng.random() < 0.25:
             o["rpc_port"] = rand_prange(rng, count)
+        if rng.random() < 0.5:
+            o["rpc_ip"] = rng.choice(["127.0.0.1", "10.0.0.7", "0.0.0.0"])
         if rng.random() < 0.3:
             o["metrics"] = True
         if rng.random() < 0.12:
@@ -342,7 +346,7 @@ def rand_op(rng, nsvc):
                 "tv": rng.choice([1, 2, 2, 3, 4]), "binok": rng.random() < 0.9, "dyn": rng.random() < 0.3}
     if r < 0.90:
         return {"op": "refresh"}
-    return {"op": "kill", "i": i}
+    return {"op": rng.choice(["kill", "restart"]), "i": i}
 
 
 def rand_history(rng, cmd_style):
@@ -382,6 +386,18 @@ def directed():
             out.append(pre + [{"op": "add", "count": 2, fld2: [t - 1, t]}])
         # a removed service still blocks its ports
         out.append([{"op": "add", "node_port": 6000}, {"op": "remove", "i": 0}, {"op": "add", fld2: 6000}])
+    # the RPC address (None / loopback / another interface) is orthogonal to every port option and every recorded
+    # port role: the same histories again with --rpc-address on the requesting add, and on the recording one
+    with_addr = []
+    for ops in out:
+        for ip in ("127.0.0.1", "10.0.0.7"):
+            ops2 = [dict(o) for o in ops]
+            ops2[-1]["rpc_ip"] = ip
+            with_addr.append(ops2)
+        ops3 = [dict(o) for o in ops]
+        ops3[0]["rpc_ip"] = "10.0.0.7"
+        with_addr.append(ops3)
+    out += with_addr
     return [{"faults": [], "ops": ops} for ops in out]
 
 
@@ -406,6 +422,8 @@ def dead_process_histories():
                  [{"op": "upgrade", "i": 0, "tv": 2, "start": False}], [{"op": "upgrade", "i": 0, "tv": 2, "start": False, "force": True}],
                  [{"op": "upgrade", "i": 0, "tv": 2}], [{"op": "start", "i": 0}], [{"op": "refresh"}, {"op": "stop", "i": 0}]):
         out.append({"faults": [], "ops": pre + [{"op": "kill", "i": 0}] + tail})
+        out.append({"faults": [], "ops": pre + [{"op": "restart", "i": 0}] + tail})
+        out.append({"faults": [], "ops": pre + [{"op": "restart", "i": 0}, {"op": "refresh"}] + tail})
         out.append({"faults": [], "ops": pre + tail})
     return out
 
